@@ -84,6 +84,22 @@ def tagged_positions(ctx, c, opts=None):
                 if not np.array_equal(np.atleast_1d(out[name].values), pv[list(idx)]):
                     bad = f"reported {name} differs from its p_val block"
                     break
+    # the executable scatter model (Model/Scatter.lean, tied to the source by the translator) on this case: the k-th unknown of the
+    # solver (tag k + 1/2) must be reported at position from_i[k], and the assembled po_sol must hold the tags where the model puts them
+    nt_, nx_, nta_ = c.nt, c.nx, len(c.trans_att)
+    ixE = [a - (1 + 2 * nt_) for a in act if 1 + 2 * nt_ <= a < 1 + 2 * nt_ + nx_]
+    if set(opts) <= {"fix_gamma"}:
+        sm = ctx.driver().call("scatter", nt=nt_, N=nx_, nta=nta_, ix_sec=fibre.ix_sec(c), ixE=ixE, p=[2 * k + 1 for k in range(n + (1 if opts else 0))],
+                               E=[0] * nx_, fg=bool(opts), fa=False, fd=False)
+        from_i = sm["fix_gamma" if opts else "solver"]
+        pos = [int(np.flatnonzero(pv == k + 0.5)[0]) if np.any(pv == k + 0.5) else None for k in range(n)]
+        if pos != from_i:
+            ctx.mismatch("Scatter.fromI" + ("FixGamma" if opts else "Solver"), desc, from_i, pos)
+        if not opts:
+            mod = sm["po_sol_match" if c.matching else "po_sol"]
+            if len(mod) != len(pv) or any(v % 2 == 1 and 2 * pv[q] != v for q, v in enumerate(mod)):
+                ctx.mismatch("Scatter.poSol", desc, [v for v in mod if v % 2 == 1][:6], (2 * pv).tolist()[:12])
+        ctx.count("scatter model compared")
     m = calib.run_model(ctx, c, want_cov=False, **calib.fix_to_model(opts))
     if m is not None and m["active"] != act:
         ctx.mismatch("Calib.activeCols", desc, m["active"], act)
